@@ -209,6 +209,41 @@ def layer_reqs(rng, tier):
     return reqs
 
 
+def nilpotent_reqs(rng, tier):
+    """the boundary where b^e becomes 0 mod m: m = p^k·c (p = 2, 3, 10 …; also exactly 2^k, one and several digits),
+    b = p^t·odd, e around k/t (floor, ceil, ±1, the exact quotient when t | k).  A shortcut "enough factors of p, so the
+    result is 0" is wrong by one step for one residue class of k mod t (C05-t1); the same shape through even and odd
+    moduli, all sign combinations of BigInt::modpow, and exponents written with several digits."""
+    reqs = []
+    ks = [63, 64, 65, 70, 96, 127, 128, 129, 130, 192, 200, 256] + ([320, 511, 512, 640, 1000] if tier == "thorough" else [])
+    ts = [1, 2, 3, 5, 7, 9, 21, 31, 63, 64, 65] + ([4, 6, 11, 13, 32, 100] if tier == "thorough" else [])
+    for p in (2, 2, 3, 10, 6):
+        for k in ks:
+            for t in (ts if p == 2 else ts[:6]):
+                if t > k:
+                    continue
+                c = rng.choice([1, 1, 3, 5, rng.randrange(1, B) | 1]) if rng.randrange(3) == 0 else 1
+                m = p ** k * c
+                odd = rng.choice([1, 1, 3, 5, 7, rng.randrange(1, 1 << 40) | 1])
+                while p != 2 and odd % p == 0:
+                    odd += 2
+                b = p ** t * odd
+                q = k // t
+                es = {q - 1, q, q + 1, -(-k // t), -(-k // t) + 1, 2 * q, 2 * q + 1, max(1, q // 2)}
+                es = sorted(e for e in es if e >= 1)
+                if tier != "thorough":
+                    es = [e for e in es if e in (q, -(-k // t))] + rng.sample(es, 1)
+                for e in es:
+                    reqs.append("C05 u.modpow %s %s %s" % (wu(b), wu(e), wu(m)))
+                    if rng.randrange(3) == 0:
+                        reqs.append("C05 u.modpow %s %s %s" % (wu(b % m if b % m else b), wu(e), wu(m)))
+                    if rng.randrange(2) == 0:
+                        sb, sm = rng.choice([1, -1]), rng.choice([1, -1])
+                        reqs.append("C05 i.modpow %s %s %s" % (wi(sb * b), wi(e), wi(sm * m)))
+                    if p in (2, 10, 6) and rng.randrange(2) == 0:
+                        reqs.append("C05 u.plain_modpow %s %s %s" % (wu(b), wu(e), wu(m)))
+    return reqs
+
 def gen(rng, tier):
     reqs = []
     thorough = tier == "thorough"
@@ -265,6 +300,7 @@ def gen(rng, tier):
             reqs.append("C05 u.plain_modpow %s %s ." % (wu(b), wu(e)))
     reqs += modinv_reqs(rng, tier)
     reqs += layer_reqs(rng, tier)
+    reqs += nilpotent_reqs(rng, tier)
     # inv_mod_alt
     for b in [1, 3, 5, 7, MAX, MAX - 2, (1 << 63) + 1, (1 << 32) + 1, (1 << 32) - 1, (1 << 63) - 1, 0x5555555555555555]:
         reqs.append("C05 raw.inv_mod_alt %x" % b)
